@@ -235,7 +235,8 @@ def evaluate(case: Dict[str, Any], base: Any, ctx: Any = None) -> List[Tuple[str
         if ctx is not None:
             ctx.case(True, key=text, sample={"unsat": [list(u) for u in unsat], "errors": msgs[:300]},
                      classes=["inference-reports-errors", "unsat" if unsat else "sat"])
-        if not unsat:
+        degenerate = any(r.degenerate() for r in list(prop_refs.values()) + list(cp_refs.values()))
+        if not unsat and not degenerate:
             # errors other than length conflicts (e.g. set/type mismatches) are legitimate for other reasons;
             # a *length conflict* on satisfiable bounds is a misreading
             if "conflicting invariants on the length" in msgs or "contradicts" in msgs:
